@@ -192,6 +192,35 @@ def runRefund (cfg : Cfg) (c : Nat) (call : OutCall) (fxSteps otherSteps : List 
     let fl ← transferTokensFlow cfg fxSteps otherSteps a b call.tokens
     runRefund cfg c call fxSteps otherSteps r (acc ++ fl)
 
+/-! ### `bridgeCallTransferCoins`: which tokens are minted before the unlock -/
+
+/-- guard of `mintCoins = mintCoins.Add(coin)` inside the token loop (regenerated: `Gen.C04.bridgeCallTransferCoins_mintGuard`) -/
+inductive MintGuard where
+  | notOrigin | origin | always | unknown
+  deriving DecidableEq, Repr
+
+/-- `IsOriginOrConvertedDenom` of the bridge denomination: FX and externally-owned pairs are locked, not burned -/
+def isOrigin : Kind → Bool
+  | .moduleOwned => false
+  | _ => true
+
+def MintGuard.mints : MintGuard → Kind → Option Bool
+  | .notOrigin, k => some (!isOrigin k)
+  | .origin, k => some (isOrigin k)
+  | .always, _ => some true
+  | .unknown, _ => none
+
+/-- one token of `bridgeCallTransferCoins` under mint guard `mg`: mint (if the guard says so), unlock to the refund address, then
+the older `ConvertDenomToTarget(bridge → base)` (FX is its own base coin) -/
+def refundCoinWith (mg : MintGuard) (k : Kind) (g c : Nat) (r : Addr) (n : Nat) : Option (List Prim) :=
+  match mg.mints k with
+  | none => none
+  | some m =>
+    some ((if m then [.mint (bridgeAsset k g c) (M c) (M c) n] else []) ++ [.send (bridgeAsset k g c) (M c) r n] ++
+      (match k with
+       | .fx => []
+       | _ => convertDenom k g r n (.chain c) .base))
+
 /-! ### precompile `handlerOriginToken` -/
 
 /-- `handlerOriginToken(ctx, evm, sender, amount)`: `crosschaintypes.GetAddress()` is the precompile account,
